@@ -804,6 +804,28 @@ def run(ctx):
     for i in range(0, len(cases), 20000):
         dis += run_fn(ctx, "C12", cases[i:i + 20000], impl, pred=pred, compare=compare, nontrivial=nontrivial)
 
+    # no hidden state: matrices of an edited network must be those of its current structure (call; count-preserving edit; call)
+    from ..stale import check_hg
+    from ..fn import build as _build, gen_hypergraph as _gen
+    import xgi as _xgi
+
+    def _net(rng):
+        nodes, edges = _gen(rng, max_nodes=6, max_edges=5, max_size=4)
+        edges = [(i, ms) for i, (_, ms) in enumerate(edges)]
+        return _build(nodes, edges)
+    check_hg(ctx, ctx.rng, _net, {
+        "degree_matrix": lambda H: _xgi.degree_matrix(H),
+        "degree_matrix(order=1)": lambda H: _xgi.degree_matrix(H, order=1),
+        "incidence_matrix": lambda H: _xgi.incidence_matrix(H, sparse=False),
+        "adjacency_matrix": lambda H: _xgi.adjacency_matrix(H, sparse=False),
+        "adjacency_matrix(order=1)": lambda H: _xgi.adjacency_matrix(H, order=1, sparse=False),
+        "intersection_profile": lambda H: _xgi.intersection_profile(H, sparse=False),
+        "clique_motif_matrix": lambda H: _xgi.clique_motif_matrix(H, sparse=False),
+        "laplacian(order=1)": lambda H: _xgi.laplacian(H, order=1, sparse=False),
+        "laplacian(order=2)": lambda H: _xgi.laplacian(H, order=2, sparse=False),
+        "multiorder_laplacian": lambda H: _xgi.multiorder_laplacian(H, [1, 2], [1, 1], sparse=False),
+        "normalized_hypergraph_laplacian": lambda H: _xgi.normalized_hypergraph_laplacian(H, sparse=False),
+    }, ctx.n(40, 800))
     conclude12(ctx, ok, dis)
     shrink_violations(ctx)
     ctx.assumptions = [
